@@ -107,6 +107,16 @@ def run(ctx: Ctx) -> int:
 	ctx.log(f'diamond graph: deep header {dsound.distinct} states OK; replayed {dreplay["edges"]} edges ({dreplay["stats"].get("runs", 0)} real runs); {len(dreplay["failures"])} discrepancies')
 	seen = {v.key for v in violations}
 	violations += [v for v in collect(ctx, 'C06', dreplay) if v.key not in seen]
+	# the pair b -> c with a third variant: the top module edited to a BLANK source (and back)
+	pres = tlc.run('MCTranp', 'TranpP_runner_edges4.cfg' if quick else 'TranpP_runner_edges5.cfg', workers=1, timeout=900)
+	pedges = [json.loads(line) for line in pres.lines('EDGE ')]
+	if not pedges:
+		raise Machinery('no edges emitted by TranpP_runner_edges')
+	preplay = replay_edges('Pair', pedges)
+	preplay['graph'] = 'Pair'
+	ctx.log(f'pair graph with a blank variant: replayed {preplay["edges"]} edges ({preplay["stats"].get("runs", 0)} real runs); {len(preplay["failures"])} discrepancies')
+	seen = {v.key for v in violations}
+	violations += [v for v in collect(ctx, 'C06', preplay) if v.key not in seen]
 	# long behaviours: random walks chosen by TLC, replayed step by step through the real runner
 	from harness.fs_replay import replay_walks
 	wres = tlc.run('TranpWalk', 'TranpWalk_runner.cfg', workers=1, timeout=900, seed=ctx.seed + 1)
